@@ -2167,3 +2167,86 @@ theorem solo_noninterference (p : Fd → Bool) (b : WorkId) (x y : Exec) (env : 
   exact ⟨y', l', hr, h1, h2, h3⟩
 
 end Px.Exec
+
+/-! ### the kernel's lowest-free descriptor allocation -/
+namespace Px.Sel
+
+/-- every candidate below the result of `lowestFree` (from `n` on) is open: the result is the lowest free one -/
+theorem lowestFree_lowest (open_ : List Fd) : ∀ (fuel n m : Nat), n ≤ m → m < lowestFree open_ fuel n → ((m : Nat) : Int) ∈ open_ := by
+  intro fuel
+  induction fuel with
+  | zero => intro n m h1 h2; simp [lowestFree] at h2; omega
+  | succ f ih =>
+    intro n m h1 h2
+    unfold lowestFree at h2
+    by_cases hn : ((n : Nat) : Int) ∈ open_
+    · simp only [hn, if_true] at h2
+      by_cases e : m = n
+      · subst e; exact hn
+      · exact ih (n + 1) m (by omega) h2
+    · simp only [hn, if_false] at h2; omega
+
+theorem lowestFree_ge (open_ : List Fd) : ∀ (fuel n : Nat), n ≤ lowestFree open_ fuel n := by
+  intro fuel
+  induction fuel with
+  | zero => intro n; simp [lowestFree]
+  | succ f ih =>
+    intro n
+    unfold lowestFree
+    by_cases hn : ((n : Nat) : Int) ∈ open_
+    · simp only [hn, if_true]; have := ih (n + 1); omega
+    · simp [hn]
+
+/-- the result is free provided the fuel did not run out -/
+theorem lowestFree_free_or_exhausted (open_ : List Fd) : ∀ (fuel n : Nat),
+    ((lowestFree open_ fuel n : Nat) : Int) ∉ open_ ∨ lowestFree open_ fuel n = n + fuel := by
+  intro fuel
+  induction fuel with
+  | zero => intro n; right; simp [lowestFree]
+  | succ f ih =>
+    intro n
+    unfold lowestFree
+    by_cases hn : ((n : Nat) : Int) ∈ open_
+    · simp only [hn, if_true]
+      rcases ih (n + 1) with h | h
+      · exact Or.inl h
+      · right; omega
+    · left; simp [hn]
+
+end Px.Sel
+
+namespace Px.Sel
+theorem pigeon : ∀ (k : Nat) (l : List Int), (∀ m : Nat, m < k → ((m : Nat) : Int) ∈ l) → k ≤ l.length := by
+  intro k
+  induction k with
+  | zero => intro l _; omega
+  | succ k ih =>
+    intro l h
+    have hk : ((k : Nat) : Int) ∈ l := h k (by omega)
+    have := ih (l.erase (k : Int)) (by
+      intro m hm
+      have hne : ((m : Nat) : Int) ≠ ((k : Nat) : Int) := by omega
+      exact (List.mem_erase_of_ne hne).2 (h m (by omega)))
+    rw [List.length_erase_of_mem hk] at this
+    have hpos : 0 < l.length := List.length_pos_of_mem hk
+    omega
+
+/-- **lowest-free allocation**: the descriptor the kernel model hands out is not open, and every
+    smaller non-negative number is -/
+theorem alloc_fresh (k : Kernel) : k.alloc ∉ k.open_ ∧ ∀ m : Nat, (m : Int) < k.alloc → (m : Int) ∈ k.open_ := by
+  unfold Kernel.alloc
+  constructor
+  · rcases lowestFree_free_or_exhausted k.open_ k.open_.length 0 with h | h
+    · exact h
+    · intro hin
+      have hall : ∀ m : Nat, m < k.open_.length + 1 → ((m : Nat) : Int) ∈ k.open_ := by
+        intro m hm
+        by_cases e : m < lowestFree k.open_ k.open_.length 0
+        · exact lowestFree_lowest k.open_ _ 0 m (by omega) e
+        · have : m = lowestFree k.open_ k.open_.length 0 := by omega
+          rw [this]; exact hin
+      have := pigeon (k.open_.length + 1) k.open_ hall
+      omega
+  · intro m hm
+    exact lowestFree_lowest k.open_ k.open_.length 0 m (by omega) (by omega)
+end Px.Sel
